@@ -507,7 +507,11 @@ class Exec:
             end = a + BV((size + 15) // 16 * 16, 64)
             hy.append(z3.ULE(end, BV(STACK_HI, 64)))
             for (r, n) in self.declared_regions + self.fresh_regions:
-                hy.append(z3.Or(z3.UGE(a, r + n), z3.ULE(end, r)))
+                # (only for regions that really are mapped memory: a garbage (addr, n) pair named under a
+                #  false antecedent of the precondition constrains nothing)
+                mapped = z3.And(z3.UGE(r, BV(USER_LO, 64)), z3.ULE(n, BV(STACK_HI, 64)),
+                                z3.ULE(r, BV(STACK_HI, 64)), z3.ULE(r + n, BV(STACK_HI, 64)))
+                hy.append(z3.Implies(mapped, z3.Or(z3.UGE(a, r + n), z3.ULE(end, r))))
             prev_end = end
         hy += self.literal_hyps
         # globals / literals / exception-class constants: distinct objects 4 KiB apart (fixed order),
@@ -782,6 +786,18 @@ class Exec:
         else:
             r2 = s2 if f2 else None
         return merge_states([r1, r2])
+
+    def known(self, st, cond):
+        """cond is implied by the path condition (syntactically, or by a quick solver check)"""
+        for p in st.pc:
+            if _same(p, cond):
+                return True
+        s = z3.Solver()
+        s.set('timeout', 500)
+        for h in st.pc:
+            s.add(h)
+        s.add(z3.Not(cond))
+        return s.check() == z3.unsat
 
     def feasible(self, st):
         """cheap pruning of branches whose path condition is unsatisfiable (sound: a
@@ -1496,7 +1512,7 @@ class Exec:
             gk2 = gk if gk in st.ghost else 'g:' + gk
             if gk2 in st.ghost:
                 st.ghost[gk2] = self.fresh('g_after_' + name, st.ghost[gk2].sort())
-        if fr.havoc_if is not None:
+        if fr.havoc_if is not None and not self.known(old, z3.Not(fr.havoc_if)):
             hv = fr.havoc_if
             st.raw = z3.If(hv, self.fresh('raw_havoc_' + name, z3.ArraySort(B64, B8)), st.raw)
             for key in list(st.fh):
